@@ -131,7 +131,7 @@ func hasMode(ms []string, m string) bool {
 	return false
 }
 
-func buildYield() error {
+func buildYield(race bool) error {
 	if yieldBin != "" {
 		return nil
 	}
@@ -176,8 +176,13 @@ func buildYield() error {
 	if sum, err := os.ReadFile(filepath.Join(verifDir, "go.sum")); err == nil {
 		os.WriteFile(filepath.Join(scratch, "go.sum"), sum, 0o644)
 	}
-	out := filepath.Join(verifDir, "bin", "sim.yield.test")
-	if err := run(verifDir, goBin(), "test", "-c", "-race", "-tags", "verif verifyield", "-modfile", modfile, "-o", out, "./sim"); err != nil {
+	out := filepath.Join(verifDir, "bin", "sim.yieldp.test")
+	args := []string{"test", "-c", "-tags", "verif verifyield", "-modfile", modfile, "-o", out, "./sim"}
+	if race {
+		out = filepath.Join(verifDir, "bin", "sim.yield.test")
+		args = []string{"test", "-c", "-race", "-tags", "verif verifyield", "-modfile", modfile, "-o", out, "./sim"}
+	}
+	if err := run(verifDir, goBin(), args...); err != nil {
 		return err
 	}
 	yieldBin, yieldRoot = out, repoCopy
@@ -608,7 +613,7 @@ func check(prop, tier string, runsOverride int) int {
 	}
 	bin, err := build(spec.Race)
 	if err == nil && hasMode(spec.Modes, "yield") {
-		err = buildYield()
+		err = buildYield(spec.Race)
 	}
 	if err != nil {
 		fmt.Fprintln(os.Stderr, err)
@@ -895,7 +900,7 @@ func replay(path string) int {
 	}
 	bin, err := build(spec.Race)
 	if err == nil && rf.Mode == "yield" {
-		err = buildYield()
+		err = buildYield(spec.Race)
 	}
 	if err != nil {
 		fmt.Fprintln(os.Stderr, err)
@@ -958,6 +963,7 @@ func selftest(props []string) int {
 			fmt.Fprintln(os.Stderr, err)
 			return 2
 		}
+		yieldTol := 0
 		type key struct {
 			seed uint64
 			mode string
@@ -969,8 +975,16 @@ func selftest(props []string) int {
 		var jobs []jb
 		var modes []string
 		for _, m := range spec.Modes {
-			if m != "yield" { // needs the instrumented race binary; never deterministic
-				modes = append(modes, m)
+			if m == "yield" && spec.Race { // free-running: never deterministic
+				continue
+			}
+			modes = append(modes, m)
+		}
+		if hasMode(modes, "yield") {
+			yieldBin, yieldRoot = "", ""
+			if err := buildYield(false); err != nil {
+				fmt.Fprintln(os.Stderr, err)
+				return 2
 			}
 		}
 		if len(modes) == 0 {
@@ -1012,9 +1026,25 @@ func selftest(props []string) int {
 		div := 0
 		for k, hs := range hashes {
 			if len(hs) != 1 {
+				if k.mode == "yield" {
+					// goroutines woken at the same simulated instant reach their first
+					// scheduling point in an order nobody controls, which names the
+					// points differently: equal verdicts are required, equal traces not
+					vs := map[string]bool{}
+					for h := range hs {
+						vs[h[strings.LastIndex(h, "/")+1:]] = true
+					}
+					if len(vs) == 1 {
+						yieldTol++
+						continue
+					}
+				}
 				div++
 				fmt.Printf("selftest %s: seed %d mode %q diverged: %v\n", prop, k.seed, k.mode, hs)
 			}
+		}
+		if yieldTol > 0 {
+			fmt.Printf("selftest %s: %d seed(s) of mode yield differ in the trace only (same verdict): tolerated\n", prop, yieldTol)
 		}
 		fmt.Printf("selftest %s: %d seeds x 4 executions (GOMAXPROCS 1,1,4,16): %d divergent\n", prop, nseeds, div)
 		if spec.ClientOrder != "" {
